@@ -396,7 +396,7 @@ func run(id, tier, only string, workers int, trace bool, replayFile, solver stri
 	}
 	cfg := &interp.Config{Prog: ld.prog, Tier: tierN, SolverKind: solver, TimeoutMs: timeoutMs, MaxInstrs: 3_000_000, MaxDepth: 4000,
 		StubPkgs: map[string]bool{"mosn.io/mosn/pkg/log": true, "mosn.io/pkg/log": true, "mosn.io/api/extensions/transport/http/fasthttp": false},
-		Params: params, Trace: trace}
+		Params: params, Trace: trace, EagerInit: []string{"mosn.io/mosn/pkg/types", "mosn.io/mosn/pkg/variable"}}
 	if trace {
 		workers = 1
 	}
@@ -450,7 +450,7 @@ func run(id, tier, only string, workers int, trace bool, replayFile, solver stri
 	assumes := 0
 	for _, en := range entries {
 		entriesByPkg[en.pkg] = append(entriesByPkg[en.pkg], en.fn.Name())
-		sum, err := interp.Explore(cfg, en.fn, interp.ExploreOpts{Workers: workers, MaxPaths: maxPaths, Seed: seed, MaxViolSite: 3, Samples: 4})
+		sum, err := interp.Explore(cfg, en.fn, interp.ExploreOpts{Workers: workers, MaxPaths: maxPaths, Seed: seed, MaxViolSite: 8, Samples: 4})
 		if err != nil {
 			fmt.Fprintln(os.Stderr, "explore:", err)
 			return 2
@@ -508,6 +508,11 @@ func run(id, tier, only string, workers int, trace bool, replayFile, solver stri
 		for f := range sum.Funcs {
 			funcs[f] = true
 		}
+		for st := range sum.Stubs {
+			if strings.HasPrefix(st, "incomplete-init:") && !stubs[st] {
+				fmt.Fprintf(os.Stderr, "  note: %s\n", st)
+			}
+		}
 		for s := range sum.Stubs {
 			stubs[s] = true
 		}
@@ -526,6 +531,8 @@ func run(id, tier, only string, workers int, trace bool, replayFile, solver stri
 		status string // reproduced | not-reproduced
 	}
 	var verdicts []verdict
+	siteRepro := map[string]bool{}
+	siteMiss := map[string][]string{}
 	if len(allViol) > 0 || !noNative {
 		byPkg := map[string][]replayCase{}
 		idx := map[string]*interp.Violation{}
@@ -566,8 +573,11 @@ func run(id, tier, only string, workers int, trace bool, replayFile, solver stri
 						validated++
 					}
 					verdicts = append(verdicts, verdict{v: v, status: st})
-					if st != "reproduced" {
-						mismatches = append(mismatches, fmt.Sprintf("%s: %q -> native %s %v %s", v.Harness, v.Msg, o.Result, o.Failed, o.Detail))
+					site := v.Harness + "|" + v.Msg
+					if st == "reproduced" {
+						siteRepro[site] = true
+					} else {
+						siteMiss[site] = append(siteMiss[site], fmt.Sprintf("%s: %q -> native %s %v %s", v.Harness, v.Msg, o.Result, o.Failed, o.Detail))
 					}
 				} else {
 					// sample of a passing path must pass natively too
@@ -581,6 +591,14 @@ func run(id, tier, only string, workers int, trace bool, replayFile, solver stri
 		}
 	}
 
+	// a site whose violation reproduced at least once is a violation; the
+	// non-reproducing siblings differ only in choices the native run cannot
+	// force (map iteration order, schedules)
+	for site, ms := range siteMiss {
+		if !siteRepro[site] {
+			mismatches = append(mismatches, ms...)
+		}
+	}
 	// ---- classify
 	exit := 0
 	nViol := 0
